@@ -62,6 +62,11 @@ var scenarios = []scenario{
 	{"commented-code-removed",
 		"@@\nvar x expression\n@@\n setup0()\n-debug(x)\n",
 		[]string{"package a\n\nfunc f() {\n\tsetup0()\n\tdebug(func() {\n\t\t// inner\n\t})\n\ttail() // t\n}\n", "package b\n\n// doc\nfunc g() {\n\tsetup0()\n\tdebug(1) // gone\n\t// own\n\ttail()\n}\n"}},
+	// the rewritten identifier keeps the position of the short one it replaces, so that its end lies beyond the
+	// end of its file: what the printer learns about that position depends on the files added to the FileSet later
+	{"position-beyond-end-of-file",
+		"@@\n@@\n-foo\n+barbarbarbarbarbarbarbarbarbarbarbarbarbarbarbar\n",
+		[]string{"package a; var _ = f(a,\n\tfoo)\n", "package b; var _, _, _, _, _, _, _, _ = foo, 2, 3, 4, 5, 6, 7, 8\n"}},
 	{"three-threads",
 		"@@\nvar x expression\n@@\n-foo(x)\n+bar(x, x)\n",
 		[]string{"package a\n\nfunc f() { foo(1) }\n", "package b\n\nfunc g() { foo(2 + 3) }\n", "package c\n\nfunc h() { other(0) }\n"}},
@@ -421,7 +426,7 @@ func main() {
 	case "race":
 		reps, _ := strconv.Atoi(os.Args[2])
 		verifsched.SetHook(nil)
-		bad := 0
+		bad, known := 0, 0
 		for _, sc := range scenarios {
 			so := solo(sc)
 			pf, err := patch.Parse("s.patch", []byte(sc.Patch))
@@ -437,6 +442,14 @@ func main() {
 					for r := 0; r < reps; r++ {
 						i := (g + r) % len(sc.Files)
 						res := applyOne(pf, fmt.Sprintf("f%d.go", i), sc.Files[i])
+						if res.key() != so[i].key() && sc.Name == "position-beyond-end-of-file" {
+							// the known finding of that scenario (the schedule exploration reports it under
+							// its own key); this pass looks for data races there, not for the mismatch
+							mu.Lock()
+							known++
+							mu.Unlock()
+							continue
+						}
 						if res.key() != so[i].key() {
 							mu.Lock()
 							if bad < 3 {
@@ -450,7 +463,7 @@ func main() {
 			}
 			wg.Wait()
 		}
-		fmt.Printf("race pass: %d scenarios x 4 goroutines x %d repetitions, mismatches=%d\n", len(scenarios), reps, bad)
+		fmt.Printf("race pass: %d scenarios x 4 goroutines x %d repetitions, mismatches=%d (and %d of the known kind in scenario position-beyond-end-of-file)\n", len(scenarios), reps, bad, known)
 		if bad > 0 {
 			os.Exit(1)
 		}
